@@ -367,6 +367,30 @@ def decrule_get():
         obs, _ = check_function("rsome.lp:DecRule.get", setup, lambda ns: ns["y"].get(ns["z"]),
                                 [post("coefficient-on-requested-component", coeff_oracle)], mode="D", label=f"adapt={pname}", bounded=True)
         out += obs
+        # the coefficient query on a SLICE of the random variable: the matching columns of the full coefficient matrix
+        for zi in (1, slice(1, None), slice(None, None, -1), [2, 0], slice(0, 3, 2)):
+            def sliced_coeff(ns, res, zi=zi):
+                y, xbar = ns["y"], ns["xbar"]
+                R = views.dense(y.to_affine().raffine.linear)
+                full = np.empty((2, 3), dtype=object)
+                for i in range(2):
+                    for j in range(3):
+                        row = R[i * 3 + j]
+                        cols = [k for k in range(len(row)) if not (isinstance(row[k], float) and row[k] == 0)]
+                        full[i, j] = xbar[cols[0]] if cols else float("nan")
+                want = full[:, zi]
+                if tuple(np.shape(res)) != tuple(np.shape(want)):
+                    return False
+                t = []
+                for g, w_ in zip(np.asarray(res, dtype=object).reshape(-1), np.asarray(want, dtype=object).reshape(-1)):
+                    if isinstance(w_, float) and math.isnan(w_):
+                        t.append(isinstance(g, float) and math.isnan(g))
+                    else:
+                        t.append(p_eq(g, w_))
+                return p_and(*t)
+            obs, _ = check_function("rsome.lp:DecRule.get", setup, lambda ns, zi=zi: ns["y"].get(ns["z"][zi]),
+                                    [post("coefficients-on-the-requested-components-only", sliced_coeff)], mode="D", label=f"adapt={pname},z[{zi}]", bounded=True)
+            out += obs
         obs, _ = check_function("rsome.lp:DecRule.get", setup, lambda ns: ns["y"].get(),
                                 [post("constant-part", lambda ns, res: p_and(
                                     tuple(np.shape(res)) == (2,),
